@@ -452,6 +452,13 @@ func (c *PullClient) newRequest(method string, url *url.URL) *Request {
 }
 
 func (c *PullClient) receiveResponse() (resp *Response, err error) {
+	// 握手阶段的读取也必须有超时；否则一个接受连接后保持沉默的摄像头会永久阻塞请求者
+	if timeout := config.NetTimeout(); timeout > 0 {
+		if err = c.conn.SetReadDeadline(time.Now().Add(timeout)); err != nil {
+			return nil, err
+		}
+	}
+
 	resp, err = ReadResponse(c.conn.Reader())
 	if err != nil {
 		return nil, err
